@@ -4,5 +4,6 @@ CONSTANTS
   Sizes <- S4
   Cuts <- CutsBig
   PersistentReader = FALSE
+  BreakAllowed = FALSE
 INVARIANT Emit
 CHECK_DEADLOCK FALSE
